@@ -16,6 +16,7 @@ def okval(call):
 def run(chk, tier):
     prog, info = common.program("all")
     common.note_extraction(chk, info, prog)
+    common.vacuity(chk, ['R-TABLE'])
     chk.explanation = ("R-LAYOUT on the three wire structs; the decoder's loop nest is summarised by value numbering (environment at each loop "
                        "entry + closed form of one iteration, inner loops havocked): bounds 0..trunc8(segment count), 0..360, 0..zext(zone count); "
                        "the only way round each loop is the success path of its decode steps, pushing exactly one element built from this "
